@@ -17,6 +17,8 @@
        F.<sid>                             ... could not exec
        T.<sid>                             the activation timeout of sid's pending activation fires
        T                                   every pending activation times out, oldest first
+       Z.<c>.<serial>                      ReloadConfig
+       V.<services>                        the service directory now holds exactly these files (then the bus reloads)
      result: one token per event: "-" (no output), "!" (ill-formed event: actor not connected; skipped),
        or outputs joined by "+":
        sp.<sid>.<name>   k.<sid>   <rcpt>:f.<from>.<serial>   <rcpt>:e.<serial>.<error>
@@ -92,13 +94,15 @@ let parse_events (st : state) (tok : string) : event list =
   | ["F"; sid] -> [EChild (ni sid, ExecFailed)]
   | ["T"; sid] -> [ETimeout (ni sid)]
   | ["T"] -> List.map (fun s -> ETimeout s) (pending_sids st)
+  | ["Z"; c; s] -> [EReload (ni c, ni s)]
+  | ["V"; svcs] -> [ESetServices (parse_services svcs)]
   | _ -> failwith ("event " ^ tok)
 
 let run_hist (ids : bool) (args : string list) : string =
   match args with
   | maxp :: svcs :: evs ->
       let cf = std_cfg (parse_services svcs) (ni maxp) in
-      let st = ref init in
+      let st = ref (start cf) in
       let toks = List.map (fun tok ->
         let es = parse_events !st tok in
         if not (List.for_all (fun e -> wf_event !st e) es) then "!" else begin
